@@ -50,6 +50,8 @@ def single_value_plan(app: App, variables: List[Var]) -> Tuple[Callable[[int, ra
         name = app.binding[op.name]
         var = next(v for v in variables if v.name == name)
         by_var[name] = max(by_var.get(name, 0), app.used_cells(op) * var.bits_per_cell)
+    # role 'k' (kept) hidden state: the macro must work, and leave it alone, whatever it holds
+    kept = {app.binding[op.name]: app.used_cells(op) for op in app.spec.var_operands() if op.role == 'k'}
     names = sorted(by_var)
     total_bits = sum(by_var.values())
     space = 1 << total_bits
@@ -59,7 +61,10 @@ def single_value_plan(app: App, variables: List[Var]) -> Tuple[Callable[[int, ra
         values: Dict[str, int] = {}
         for var in variables:  # everything random first (upper cells, bystanders, write-only destinations)
             if var.hidden:  # library state is clean (0) unless the macro documents it as an input
-                values[var.name] = harness.boundary_value(rng, by_var[var.name]) if by_var.get(var.name) else 0
+                if by_var.get(var.name):
+                    values[var.name] = harness.boundary_value(rng, by_var[var.name])
+                else:
+                    values[var.name] = harness.boundary_value(rng, kept[var.name]) if kept.get(var.name) and rng.random() < 0.2 else 0
             else:
                 values[var.name] = harness.boundary_value(rng, var.bits_per_cell * var.length)
         if exhaustive:
@@ -82,6 +87,12 @@ def init_text(needs: str, w: int) -> str:
     return needs  # an explicit init block
 
 
+def violation_key(v: Dict[str, Any]) -> str:
+    """mechanism key: macro, its form (scalar / n-vector overload) and what disagreed - never operand values."""
+    form = '' if v.get('form', 'n') == 'n' else '[scalar]'
+    return f'{v["macro"]}{form}/{v["what"]}'
+
+
 class Recorder:
     def __init__(self, prop: str) -> None:
         self.prop = prop
@@ -95,7 +106,7 @@ class Recorder:
 
     def program(self, apps: List[App], variables: List[Var], w: int, init: str, passes: int,
                 plan: Callable[[int, random.Random], Dict[str, int]], rng: random.Random, label: str, journal: Any,
-                fast_slice: int = 0) -> Optional[Monitor]:
+                fast_slice: int = 0, keep_going: bool = False) -> Optional[Monitor]:
         text = harness.render_program(apps, variables, w, init)
         journal.note({'program': text[:4000], 'w': w, 'label': label})
         path, labels, error = harness.assemble_program(text, w, tag=self.prop.lower())
@@ -107,7 +118,7 @@ class Recorder:
             if len(self.counters['assembly_errors']) < 8:
                 self.counters['assembly_errors'].append(short)
             return None
-        monitor = Monitor(apps, variables, labels, w, passes, plan, random.Random(rng.getrandbits(64)))
+        monitor = Monitor(apps, variables, labels, w, passes, plan, random.Random(rng.getrandbits(64)), keep_going=keep_going)
         result = harness.run_monitored(path, monitor)
         self.count('programs_run')
         self.count('monitor_evaluations', monitor.checks)
@@ -121,13 +132,15 @@ class Recorder:
         for app in apps:
             self.counters.setdefault('macros', {})
             self.counters['macros'][app.spec.macro] = self.counters['macros'].get(app.spec.macro, 0) + 1
-        if monitor.violation is not None:
-            v = monitor.violation
-            key = f'{v["macro"]}/{v["what"]}'
+        for v in (monitor.all_violations if monitor.violation is not None else []):
+            key = violation_key(v)
             if sum(1 for x in self.violations if x['key'] == key) < 2:
                 self.violations.append({'key': key, 'what': f'{v["macro"]} ({v["doc"]}) n={v["n"]} w={w}: {v["detail"]}; operands {v["pass_values"]} '
                                                             f'consts {v["consts"]} after {v["sequence_so_far"]}',
                                         'replay': {**v, 'program': text[:6000], 'label': label}})
+        if monitor.violation is not None:
+            if not result['finished']:
+                self.count('programs_stopped_at_violation')
         elif not result['finished']:
             obs = result['obs']
             key = f'run-ended-early/{obs.get("cause")}'
@@ -139,10 +152,19 @@ class Recorder:
                                         'replay': {'program': text[:6000], 'obs': {k: str(v) for k, v in obs.items()}, 'w': w}})
         elif fast_slice:
             # the same program on the pure-Python fast loop: an engine defect must not masquerade as a library defect
-            mon2 = Monitor(apps, variables, labels, w, min(passes, fast_slice), plan, random.Random(1))
+            mon2 = Monitor(apps, variables, labels, w, min(passes, fast_slice), plan, random.Random(1), keep_going=keep_going)
             res2 = harness.run_monitored(path, mon2, engine='fast')
             self.count('fast_engine_slices')
-            if mon2.violation is not None or not res2['finished']:
+            if keep_going and mon2.violation is not None and res2['finished']:
+                # other operand values than the native run above: a library discrepancy that run did not reach, not an engine one
+                for v in mon2.all_violations:
+                    key = violation_key(v)
+                    if sum(1 for x in self.violations if x['key'] == key) < 2:
+                        self.violations.append({'key': key, 'what': f'{v["macro"]} ({v["doc"]}) n={v["n"]} w={w}: {v["detail"]}; operands '
+                                                                    f'{v["pass_values"]} consts {v["consts"]} after {v["sequence_so_far"]} '
+                                                                    f'(fast-engine slice)',
+                                                'replay': {**v, 'program': text[:6000], 'label': label}})
+            elif mon2.violation is not None or not res2['finished']:
                 self.violations.append({'key': 'fast-engine-slice-disagrees', 'what': f'{label}: {mon2.violation or res2["obs"]}',
                                         'replay': {'program': text[:6000]}})
         return monitor
@@ -204,7 +226,7 @@ def shard_single(rec: Recorder, specs: List[Spec], spec_indices: List[int], spec
 
 
 def shard_sequence(rec: Recorder, specs: List[Spec], seed: Any, programs: int, tier: str, journal: Any, kinds: List[str], needs: str,
-                   hidden: Sequence[Var] = ()) -> None:
+                   hidden: Sequence[Var] = (), keep_going: bool = False) -> None:
     rng = rng_for(*seed)
     for index in range(programs):
         w = rng.choice([16, 32, 64]) if needs == 'none' else rng.choice([32, 64])
@@ -231,7 +253,7 @@ def shard_sequence(rec: Recorder, specs: List[Spec], seed: Any, programs: int, t
 
         passes = 400 if tier == 'quick' else 4000
         mon = rec.program(apps, variables, w, init_text(needs, w), passes, plan, rng, f'sequence#{index}', journal,
-                          fast_slice=20 if index % 3 == 0 else 0)
+                          fast_slice=20 if index % 3 == 0 else 0, keep_going=keep_going)
         if mon is not None:
             rec.count('sequence_programs')
             rec.hashes.append(case_hash([[a.spec.macro for a in apps], [a.binding for a in apps], w]))
